@@ -1,0 +1,38 @@
+//go:build verif
+
+package bls
+
+import (
+	math "github.com/IBM/mathlib"
+)
+
+// Thin exported aliases of unexported functions, for the verification harness under /verif.
+// Compiled only with -tags verif.
+
+func VerifLagrangeCoefficient(evaluatedAt int64, evaluationPoints ...int64) *math.Zr {
+	return lagrangeCoefficient(evaluatedAt, evaluationPoints...)
+}
+
+func VerifChooseKoutOfN(n, k int, f func([]int64)) { chooseKoutOfN(n, k, f) }
+
+func VerifReconstruct(s Shares, evaluationPoints ...int64) *math.Zr {
+	return s.reconstruct(evaluationPoints...)
+}
+
+func VerifLocalCreatePublicKeys(shares Shares) []*math.G2 { return localCreatePublicKeys(shares) }
+
+func VerifLocalAggregatePublicKeys(pks []*math.G2, evaluationPoints ...int64) *math.G2 {
+	return localAggregatePublicKeys(pks, evaluationPoints...)
+}
+
+func VerifLocalAggregateSignatures(signatures []*math.G1, evaluationPoints ...int64) *math.G1 {
+	return localAggregateSignatures(signatures, evaluationPoints...)
+}
+
+func VerifLocalSign(sk *math.Zr, digest []byte) *math.G1 { return localSign(sk, digest) }
+
+func VerifLocalVerify(pk *math.G2, digest []byte, sig *math.G1) error {
+	return localVerify(pk, digest, sig)
+}
+
+func VerifCurve() *math.Curve { return c }
